@@ -10,7 +10,7 @@ use crate::refint::{eval_un, wrapping_eval_bin, RefErr};
 pub const META_C07: Meta = Meta {
     id: "C07",
     level: "exploration",
-    rule: "Enumerated sub-space (complete in both tiers): every width 1..=64 x 420 fixed 64-bit values (0, +-1, 2^k, 2^k+-1, -2^k for all k, MIN, MAX, MIN+1, MAX-1, alternating patterns) plus 2 PRNG values per batch x 5 paths {input, bidirectional-in, output expected, bidirectional `_out` expected, virtual (64 bit)} x entry forms {non-negative literal in 4 radices, parenthesised expression, variable, value read back from a 64-bit device output}. The oracle is direct, not the reference interpreter: want = v if bits == 64 else v & (2^bits - 1) computed in u128, compared with InputEntry.value as received by the device and with OutputResultEntry.expected; Z/X entries must pass through unchanged. Remaining cases: generator profile `width` (widths from {1,2,7,8,16,31,32,33,48,62,63,64}, boundary literals) against the reference. Non-trivial = the value has bits set at or above `bits`, or bits is 63/64 (counted per program batch, distinct by text).",
+    rule: "Enumerated sub-space (complete in both tiers): every width 1..=64 x 420 fixed 64-bit values (0, +-1, 2^k, 2^k+-1, -2^k for all k, MIN, MAX, MIN+1, MAX-1, alternating patterns) plus 2 PRNG values per batch x 5 paths {input, bidirectional-in, output expected, bidirectional `_out` expected, virtual (64 bit)} x entry forms {non-negative literal in 4 radices, parenthesised expression, variable, value read back from a 64-bit device output}. The oracle is direct, not the reference interpreter: want = v if bits == 64 else v & (2^bits - 1) computed in u128, compared with InputEntry.value as received by the device and with OutputResultEntry.expected; Z/X entries must pass through unchanged. Remaining cases: generator profile `width` (widths from {1,2,7,8,16,31,32,33,48,62,63,64}, boundary literals) against the reference; 3% of them are programs with bits(k, e), k in {64, 63, 62, 33, 32}, spread over columns of MIXED widths (inputs, outputs and virtual signals of 1..64 bits) with e = -1, MIN, values with the sign bit set and the boundary values - every column must receive 0 or 1. Non-trivial = the value has bits set at or above `bits`, or bits is 63/64 (counted per program batch, distinct by text).",
     assumptions: &["device-injected values reach expressions unmodified (checked by C04)"],
     quick_cases: 61728,
     thorough_cases: 1001728,
@@ -258,10 +258,68 @@ pub fn profile_width() -> GenCfg {
     c
 }
 
+/// `bits(k, e)` over up to 64 columns whose signals are NOT all one bit wide (inputs, outputs,
+/// virtual signals, widths 1..64): every column gets one bit of `e` - 0 or 1 whatever the width
+/// of its signal and whichever bit of `e` it is (the sign bit included).
+fn c07_wide_bits_case(r: &mut Prng) -> Case {
+    let k = *r.pick(&[64usize, 64, 64, 63, 62, 33, 32]);
+    let extra = r.below(3);
+    let mut sigs: Vec<Sig> = vec![];
+    let mut header = vec![];
+    let mut items = vec![];
+    let n_virt = r.below(3);
+    for i in 0..k + extra {
+        let bits = *r.pick(&[1usize, 1, 2, 4, 8, 16, 33, 63, 64]);
+        if i < n_virt * 7 && i % 7 == 0 {
+            // a virtual signal column (64 bit by definition)
+            let name = format!("V{i}");
+            items.push(Item::Declare(name.clone(), Expr::Num(i as i64, Radix::Dec)));
+            header.push(name);
+        } else if r.chance(1, 2) {
+            sigs.push(Sig { name: format!("I{i}"), bits, kind: SigKind::In(InVal::V(0)) });
+            header.push(format!("I{i}"));
+        } else {
+            sigs.push(Sig { name: format!("O{i}"), bits, kind: SigKind::Out });
+            header.push(format!("O{i}"));
+        }
+    }
+    let vals = c07_values();
+    for id in 1..=4usize {
+        let v = match r.below(4) {
+            0 => -1,
+            1 => i64::MIN,
+            2 => r.next_u64() as i64 | i64::MIN,
+            _ => *r.pick(&vals),
+        };
+        let mut es = vec![];
+        let lead = r.below(extra + 1);
+        for _ in 0..lead {
+            es.push(Entry::Lit(r.range(0, 1), Radix::Dec));
+        }
+        es.push(Entry::Bits(k as u8, expr_for(v, r)));
+        for _ in lead..extra {
+            es.push(Entry::Lit(r.range(0, 1), Radix::Dec));
+        }
+        items.push(Item::Row(id, es));
+    }
+    let outs: Vec<usize> = (0..sigs.len()).filter(|&i| sigs[i].is_output()).collect();
+    Case {
+        program: Program { header, items },
+        signals: sigs,
+        script: Script { layout: outs, values: ValueFn::Small { salt: 5, modulus: 2 }, faults: vec![], override_write: r.chance(1, 2), rebuild_signals: false },
+        layout_opts: crate::pp::Layout::plain(),
+        rng_seed: 1,
+    }
+}
+
 fn c07_random(case_seed: u64, acc: &mut Acc) {
     let mut r = Prng::new(case_seed);
     let cfg = profile_width();
-    let case = gen::generate(&mut r, &cfg);
+    let wide_bits = r.chance(30, 1000);
+    let case = if wide_bits { c07_wide_bits_case(&mut r) } else { gen::generate(&mut r, &cfg) };
+    if wide_bits {
+        acc.tag("bits_over_up_to_64_columns_of_mixed_widths");
+    }
     acc.cases += 1;
     let Some(ran) = standard_run(&case, acc, None) else { return };
     let h = case_hash(&case, &ran.pr);
